@@ -8,7 +8,8 @@ from .. import cmp, gen, lib, model, ops
 from . import common
 
 LEVEL = "exploration"
-RULE = ("seeded random histories of 2-10 calls on ONE grouping object - reductions with fresh values and masks, transform, "
+RULE = ("seeded random histories of 2-10 calls on ONE grouping object - reductions with fresh values and masks (in 60% of the "
+        "histories written into the caller's same preallocated mask / value buffers, refilled in place between calls; one-mask-per-group sweeps), transform, "
         "groups, head/tail/nth, cumulative, rolling, median/quantile/apply, EMA, size, calls that fail (misaligned values, a "
         "raising user function), a repeat of an earlier call, replacing the object by GroupBy(object), the class-level form "
         "GroupBy.op(keys, ...) - for every key representation: contiguous, chunk-wise with per-chunk dictionaries (scaled "
@@ -35,7 +36,7 @@ def plan(tier):
 
 def required_counters(tier):
     return ["state:contiguous", "state:chunked+pointers", "state:chunked+unified", "state:unified", "invariant_evaluations", "steps_compared",
-            "copy_constructor_steps", "class_level_steps", "failing_steps", "repeat_steps"]
+            "copy_constructor_steps", "class_level_steps", "failing_steps", "repeat_steps", "mask_buffer_refilled_in_place", "value_buffer_refilled_in_place"]
 
 
 def install_invariant():
@@ -100,13 +101,29 @@ def _raiser(x):
     raise RuntimeError("user function failed")
 
 
-def run_step(gb, keys_obj, step, case, idx):
-    """execute one step on grouping gb; returns Res."""
+def run_step(gb, keys_obj, step, case, idx, bufs=None, ctx=None):
+    """execute one step on grouping gb; returns Res.  bufs: the caller's preallocated buffers - a boolean mask / ndarray values
+    of a dtype seen before are written into the SAME array object as last time (refilled in place between the calls), which is
+    what a caller looping over masks does; results must depend on the contents at call time, not on the object's identity."""
     from groupby_lib import GroupBy
 
     op = step["op"]
     val = gen.val_array(step["val"], step.get("vc", "np"), index=idx) if step.get("val") else None
     mask = gen.mask_obj(step.get("mask"), index=idx)
+    if bufs is not None:
+        if isinstance(mask, np.ndarray) and mask.dtype == bool:
+            if "mask" in bufs and ctx is not None:
+                ctx.count("mask_buffer_refilled_in_place")
+            b = bufs.setdefault("mask", np.empty(len(mask), dtype=bool))
+            b[:] = mask
+            mask = b
+        if isinstance(val, np.ndarray) and val.ndim == 1:
+            k = "val:" + str(val.dtype)
+            if k in bufs and ctx is not None:
+                ctx.count("value_buffer_refilled_in_place")
+            b = bufs.setdefault(k, np.empty(len(val), dtype=val.dtype))
+            b[:] = val
+            val = b
     kind = step.get("kind", "ok")
     if kind == "fail_len":
         bad = np.asarray(gen.val_np(step["val"]))[:-1]
@@ -175,6 +192,7 @@ def check(case, ctx):
         ctx.count(f"state:{s0}")
         labels0 = cmp.labels_of(gb.result_index)
         seen = {}
+        bufs = {} if case.get("shared_buffers") else None
         for j, step in enumerate(case["steps"]):
             kind = step.get("kind", "ok")
             if kind == "copy":
@@ -193,7 +211,7 @@ def check(case, ctx):
             if kind == "classlevel":
                 ctx.count("class_level_steps")
             before = state_of(gb, started_chunked)
-            r = run_step(gb, keys_obj, step, case, idx)
+            r = run_step(gb, keys_obj, step, case, idx, bufs, ctx)
             after = state_of(gb, started_chunked)
             ctx.count(f"state:{after}")
             ctx.counters[f"transition|{before}|{step['op']}{'(T)' if step.get('transform') else ''}|{after}"] += 1
@@ -277,6 +295,24 @@ def gen_case(rng, dtypes, rep):
             steps.append({"op": steps[cand[0]]["op"], "kind": "repeat", "of": int(gen.pick(rng, cand))})
         else:
             steps.append(gen_step(rng, n, lk, dtypes))
+    if rng.random() < 0.35:
+        # a caller sweeping one mask per group over the same grouping (each mask leaves the other groups without any selected row)
+        labels = sorted({k for k in lk if k is not None}, key=repr)
+        if len(labels) >= 2:
+            op = gen.pick(rng, ["sum", "mean", "min", "max", "count", "first", "last", "var"])
+            ok = [d for d in dtypes if ops.accepts(op, d)] or ["float64"]
+            dtype = gen.pick(rng, ok)
+            at = int(rng.integers(0, len(steps) + 1))
+            sweep = []
+            for g in [labels[int(i)] for i in rng.permutation(len(labels))[:3]]:
+                val = gen.gen_vals(rng, n, dtype, magnitude="small" if np.dtype(dtype).kind in "iu" else None)
+                sweep.append({"op": op, "val": val, "params": ops.gen_params(rng, op, n), "mask": {"kind": "bool", "vals": [k == g for k in lk]}})
+            steps[at:at] = sweep
+            for st_ in steps:  # 'repeat' steps refer to positions
+                if st_.get("kind") == "repeat" and st_["of"] >= at:
+                    st_["of"] += len(sweep)
+            case["mask_sweep"] = True
+    case["shared_buffers"] = bool(rng.random() < 0.6)
     case["steps"] = steps
     return case
 
